@@ -19,7 +19,13 @@
 //
 // from several pre-states (fresh world; world with overlay features and
 // modified tags; world with a replaced base point) and for the default and a
-// named world root.
+// named world root, over three kinds of world: a writable server
+// (ingest.MutableWorlds); the same with a fault injected: the k-th mutating call
+// (AddFeature / AddTag / RemoveTag) the evaluation makes on the world fails,
+// for every k up to the number of such calls the evaluation makes (a thin
+// ingest.Worlds / ingest.MutableWorld wrapper by delegation, handed to the
+// service and to the evaluator, records the calls and injects the fault); and a
+// read-only server (ingest.ReadOnlyWorlds, as b6 --read-only uses).
 // Oracle. "Applying the change failed" is decided WITHOUT Change.Apply (which is
 // part of the code under test): the identical change, built with the ingest
 // constructors, is taken apart into its entries (AddTags / RemoveTags /
@@ -34,9 +40,14 @@
 // applying the change failed. The entries of a change read from a file can't be
 // read from the change (the type is private): for files made of tag-edit
 // documents only (add / remove lists on a present or absent ID) the entries are
-// written out by hand next to the file text; for files with feature documents,
-// as before, the differential with Change.Apply on an identical fresh world
-// decides.
+// written out by hand next to the file text; otherwise the entries are the
+// documents of the file, each applied on its own by ingesting it as a
+// one-document file (fresh reader) into the model world.
+// On a read-only world the same entrywise application (on ingest.ReadOnlyWorld)
+// says that every change fails. Independently of any model, the wrapper shows
+// what happened: whenever a mutating call the evaluation made on the world
+// returned an error (injected, read-only, or real), the response must report an
+// error.
 // As before, the identical change is also applied with Change.Apply to a second
 // identical world: on success the IDs returned must be those Apply reports,
 // contain every target feature whose own tags/existence changed and nothing but
@@ -174,7 +185,26 @@ func filePart(name, file, text string, targets ...b6.FeatureID) part {
 	return part{name: name, kind: "file-change", files: map[string]string{file: text},
 		shell:   func(dir string) string { return fmt.Sprintf("changes-from-file %q", filepath.Join(dir, file)) },
 		ref:     fileRef(name, text),
+		ops:     documentOps(text),
 		targets: targets}
+}
+
+// documentOps: the entries of a change file are its documents; a document is
+// applied on its own by ingesting it as a one-document file (the features
+// documents describe can only be built by the YAML ingestion itself).
+func documentOps(text string) func() []op {
+	return func() []op {
+		docs := strings.Split(text, "---\n")
+		var ops []op
+		for i, d := range docs {
+			d := d
+			ops = append(ops, op{kind: "file-document", idx: i, n: len(docs), do: func(w ingest.MutableWorld) error {
+				_, err := ingest.IngestChangesFromYAML(strings.NewReader(d)).Apply(w)
+				return err
+			}})
+		}
+		return ops
+	}
 }
 
 func geoPart(name, json string, fill func() *ingest.AddFeatures, targets ...b6.FeatureID) part {
@@ -742,6 +772,89 @@ func evalUI(worlds ingest.Worlds, e b6.Expression, root b6.FeatureID) outcome {
 
 func parseGeoJSON(s string) (geojson.GeoJSON, error) { return geojson.Unmarshal([]byte(s)) }
 
+// ---- observed and fault-injecting worlds -------------------------------------------
+
+// mutCall: one mutating call the code under test made on the real world.
+type mutCall struct {
+	kind     string // add-feature | add-tag | remove-tag
+	id       b6.FeatureID
+	err      error
+	injected bool
+}
+
+// faultWorld implements ingest.MutableWorld by delegation. It records every
+// mutating call (AddFeature / AddTag / RemoveTag) made on the world and its
+// result, and fails the failAt-th of them (1-based; 0 = never) without
+// performing it.
+type faultWorld struct {
+	ingest.MutableWorld
+	log *mutLog
+}
+
+type mutLog struct {
+	sync.Mutex
+	failAt int
+	calls  []mutCall
+}
+
+func (f *faultWorld) mutate(kind string, id b6.FeatureID, do func() error) error {
+	f.log.Lock()
+	defer f.log.Unlock()
+	if len(f.log.calls)+1 == f.log.failAt {
+		err := fmt.Errorf("injected fault: mutating call %d (%s %s) fails", f.log.failAt, kind, id)
+		f.log.calls = append(f.log.calls, mutCall{kind, id, err, true})
+		return err
+	}
+	err := do()
+	f.log.calls = append(f.log.calls, mutCall{kind, id, err, false})
+	return err
+}
+
+func (f *faultWorld) AddFeature(feature ingest.Feature) error {
+	return f.mutate("add-feature", feature.FeatureID(), func() error { return f.MutableWorld.AddFeature(feature) })
+}
+
+func (f *faultWorld) AddTag(id b6.FeatureID, tag b6.Tag) error {
+	return f.mutate("add-tag", id, func() error { return f.MutableWorld.AddTag(id, tag) })
+}
+
+func (f *faultWorld) RemoveTag(id b6.FeatureID, key string) error {
+	return f.mutate("remove-tag", id, func() error { return f.MutableWorld.RemoveTag(id, key) })
+}
+
+// faultWorlds implements ingest.Worlds by delegation, handing out the worlds
+// of inner wrapped in faultWorld (one log, so calls are numbered across them).
+type faultWorlds struct {
+	inner ingest.Worlds
+	log   mutLog
+}
+
+func (f *faultWorlds) FindOrCreateWorld(id b6.FeatureID) ingest.MutableWorld {
+	return &faultWorld{MutableWorld: f.inner.FindOrCreateWorld(id), log: &f.log}
+}
+
+func (f *faultWorlds) ListWorlds() []b6.FeatureID { return f.inner.ListWorlds() }
+
+func (f *faultWorlds) DeleteWorld(id b6.FeatureID) { f.inner.DeleteWorld(id) }
+
+// firstFailure: the first mutating call that returned an error (nil if none).
+func (f *faultWorlds) firstFailure() *mutCall {
+	f.log.Lock()
+	defer f.log.Unlock()
+	for i := range f.log.calls {
+		if f.log.calls[i].err != nil {
+			return &f.log.calls[i]
+		}
+	}
+	return nil
+}
+
+func (f *faultWorlds) ncalls() int {
+	f.log.Lock()
+	defer f.log.Unlock()
+	return len(f.log.calls)
+}
+
 // ---- entrywise application (the independent model of "applying the change") ------
 
 // op: one entry of a change, applied with the world's own elementary operation.
@@ -839,41 +952,68 @@ func failureCause(err error) string {
 	return "other"
 }
 
+// setup writes the files the change reads and returns the client's text.
+func setup(ch change, r *kit.Result) (dir, text, shown string, cleanup func(), ok bool) {
+	cleanup = func() {}
+	needsFiles := false
+	for _, p := range ch.parts {
+		needsFiles = needsFiles || len(p.files) > 0
+	}
+	if needsFiles {
+		var err error
+		if dir, err = os.MkdirTemp("", "c26-"); err != nil {
+			r.Violate("harness:tempdir", "%v", err)
+			return "", "", "", cleanup, false
+		}
+		d := dir
+		cleanup = func() { os.RemoveAll(d) }
+	}
+	for _, p := range ch.parts {
+		for name, content := range p.files {
+			if err := os.WriteFile(filepath.Join(dir, name), []byte(content), 0o644); err != nil {
+				r.Violate("harness:tempfile", "%v", err)
+				return dir, "", "", cleanup, false
+			}
+		}
+	}
+	text = ch.shell(dir)
+	shown = text
+	if dir != "" {
+		shown = strings.ReplaceAll(text, dir, "<dir>")
+	}
+	return dir, text, shown, cleanup, true
+}
+
+// evaluate sends the expression through one of the two evaluators.
+func evaluate(evaluator string, worlds ingest.Worlds, expr b6.Expression, root b6.FeatureID) (got outcome, cls, msg string) {
+	cls, msg = kit.Catch(func() {
+		if evaluator == "grpc" {
+			got = evalGRPC(worlds, expr, root)
+		} else {
+			got = evalUI(worlds, expr, root)
+		}
+	})
+	return got, cls, msg
+}
+
 func (e *env) run(cd caseDef) kit.Result {
+	if cd.readOnly {
+		return e.runReadOnly(cd)
+	}
 	var r kit.Result
 	ch := e.changes[cd.change]
 	pre := prestates[cd.pre]
 	root := roots[cd.root]
 	evaluator := evaluators[cd.eval]
-	needsFiles := false
-	for _, p := range ch.parts {
-		needsFiles = needsFiles || len(p.files) > 0
-	}
-	dir := ""
-	if needsFiles {
-		var err error
-		if dir, err = os.MkdirTemp("", "c26-"); err != nil {
-			r.Violate("harness:tempdir", "%v", err)
-			return r
-		}
-		defer os.RemoveAll(dir)
-	}
-	for _, p := range ch.parts {
-		for name, text := range p.files {
-			if err := os.WriteFile(filepath.Join(dir, name), []byte(text), 0o644); err != nil {
-				r.Violate("harness:tempfile", "%v", err)
-				return r
-			}
-		}
-	}
-	text := ch.shell(dir)
-	shown := text
-	if dir != "" {
-		shown = strings.ReplaceAll(text, dir, "<dir>")
+	dir, text, shown, cleanup, ok := setup(ch, &r)
+	defer cleanup()
+	if !ok {
+		return r
 	}
 	desc := fmt.Sprintf("evaluator=%s root=%s pre-state=%s\nexpression: %s", evaluator, root, pre.name, shown)
 	r.Key = fmt.Sprintf("%s|%s|%s|%d", evaluator, ch.name, pre.name, cd.root)
 	r.Nontrivial = true
+	r.Evals = 1
 
 	// the world the evaluators act on
 	worlds := &ingest.MutableWorlds{Base: e.base}
@@ -899,14 +1039,11 @@ func (e *env) run(cd caseDef) kit.Result {
 		r.Violate("harness:expression-does-not-parse", "%s\n%v", desc, err)
 		return r
 	}
-	var got outcome
-	if cls, msg := kit.Catch(func() {
-		if evaluator == "grpc" {
-			got = evalGRPC(worlds, expr, root)
-		} else {
-			got = evalUI(worlds, expr, root)
-		}
-	}); cls != "" {
+	// the evaluators get the world through a wrapper that records the mutating
+	// calls made on it (and, here, injects no fault)
+	observed := &faultWorlds{inner: worlds}
+	got, cls, msg := evaluate(evaluator, observed, expr, root)
+	if cls != "" {
 		r.Violate(evaluator+":"+cls, "%s\n%s", desc, msg)
 		return r
 	}
@@ -999,7 +1136,7 @@ func (e *env) run(cd caseDef) kit.Result {
 			r.Count("entrywise:every-entry-succeeds", 1)
 		}
 	} else {
-		r.Count("decided-by:direct-apply-only(file-with-feature-documents)", 1)
+		r.Count("decided-by:direct-apply-only", 1)
 	}
 	if cd.change%7 == 0 && cd.pre == 0 && cd.root == 0 {
 		sm := map[string]interface{}{"evaluator": evaluator, "expression": shown, "pre_state": pre.name, "reference_apply_error": fmt.Sprint(refErr), "response_error": fmt.Sprint(got.err)}
@@ -1041,6 +1178,43 @@ func (e *env) run(cd caseDef) kit.Result {
 				"%s\nevery one of the %d entries succeeds when applied one by one, and the evaluator's world equals the world with all of them applied\nthe response reports: %v (Change.Apply on an identical fresh world: %v)", desc, len(ops), got.err, refErr)
 		} else {
 			r.Count("apply-fails-though-every-entry-succeeds-on-its-own", 1)
+		}
+	}
+	// (1b) observed: a mutating call the evaluation made on the world failed
+	if f := observed.firstFailure(); f != nil && got.err == nil {
+		r.Violate(fmt.Sprintf("%s:no-error-reported-though-a-mutation-of-the-world-failed:writable-world:%s:%s", evaluator, ch.kind, f.kind),
+			"%s\nwhile the change was applied, %s %s on the world returned: %v\nthe response reports no error (result %s, ids %s)", desc, f.kind, f.id, f.err, got.typ, idSet(got.ids))
+	}
+	// (1c) fault injection: the same request on an identical world whose k-th
+	// mutating call fails, for every k up to the number of mutating calls the
+	// evaluation made: the caller must be told
+	ncalls := observed.ncalls()
+	r.Count(fmt.Sprintf("mutating-calls-on-the-world:%d", ncalls), 1)
+	for k := 1; k <= ncalls; k++ {
+		fworlds := &ingest.MutableWorlds{Base: e.base}
+		if err := pre.apply(e.x, fworlds.FindOrCreateWorld(root)); err != nil {
+			r.Violate("harness:prestate", "%s: %v", pre.name, err)
+			return r
+		}
+		faulty := &faultWorlds{inner: fworlds}
+		faulty.log.failAt = k
+		fgot, cls, msg := evaluate(evaluator, faulty, expr, root)
+		r.Evals++
+		if cls != "" {
+			r.Violate(evaluator+":fault-injected:"+cls, "%s\nmutating call %d of %d on the world fails (injected)\n%s", desc, k, ncalls, msg)
+			continue
+		}
+		f := faulty.firstFailure()
+		if f == nil || faulty.ncalls() < k {
+			r.Violate("harness:injected-fault-not-reached", "%s\nmutating call %d of %d was to fail; the evaluation made %d", desc, k, ncalls, faulty.ncalls())
+			continue
+		}
+		r.Keys = append(r.Keys, fmt.Sprintf("%s|fault@%d", r.Key, k))
+		r.Count("fault-injected:"+ch.kind+":"+f.kind, 1)
+		if fgot.err == nil {
+			r.Violate(fmt.Sprintf("%s:no-error-reported-though-a-mutation-of-the-world-failed:fault-injected:%s:%s", evaluator, ch.kind, f.kind),
+				"%s\nmutating call %d of %d the evaluation makes on the world (%s %s) fails: %v\nthe response reports no error (result %s, ids %s); the evaluation went on to make %d mutating calls",
+				desc, k, ncalls, f.kind, f.id, f.err, fgot.typ, idSet(fgot.ids), faulty.ncalls())
 		}
 	}
 	// (2) the world: identical to the reference world after the identical Apply
@@ -1095,7 +1269,90 @@ func (e *env) run(cd caseDef) kit.Result {
 	return r
 }
 
-type caseDef struct{ change, pre, root, eval int }
+// runReadOnly: the request against a read-only server (ingest.ReadOnlyWorlds
+// over the base, as b6 --read-only uses): no entry of any change can be
+// applied, so the caller must be told.
+func (e *env) runReadOnly(cd caseDef) kit.Result {
+	var r kit.Result
+	ch := e.changes[cd.change]
+	root := roots[cd.root]
+	evaluator := evaluators[cd.eval]
+	dir, text, shown, cleanup, ok := setup(ch, &r)
+	defer cleanup()
+	if !ok {
+		return r
+	}
+	desc := fmt.Sprintf("evaluator=%s root=%s world=read-only (ingest.ReadOnlyWorlds over the base)\nexpression: %s", evaluator, root, shown)
+	r.Key = fmt.Sprintf("%s|%s|read-only|%d", evaluator, ch.name, cd.root)
+	r.Nontrivial = true
+	r.Count("change:"+ch.kind, 1)
+	expr, err := api.ParseExpression(text)
+	if err != nil {
+		r.Violate("harness:expression-does-not-parse", "%s\n%v", desc, err)
+		return r
+	}
+	observed := &faultWorlds{inner: ingest.ReadOnlyWorlds{Base: e.base}}
+	got, cls, msg := evaluate(evaluator, observed, expr, root)
+	if cls != "" {
+		r.Violate(evaluator+":read-only-world:"+cls, "%s\n%s", desc, msg)
+		return r
+	}
+	if got.typ == "harness" {
+		r.Violate("harness:to-proto", "%s\n%v", desc, got.err)
+		return r
+	}
+	// applying failed: the entries one by one on a read-only world; for files
+	// with feature documents (no readable entries) Change.Apply on one
+	ro := ingest.ReadOnlyWorld{World: e.base}
+	ops, modelled := ch.ops(dir)
+	failAt := -1
+	var failErr error
+	how := "applying the entries of the identical change one by one to a read-only world"
+	if cls, msg := kit.Catch(func() {
+		if modelled {
+			for i, o := range ops {
+				if err := o.do(ro); err != nil {
+					failAt, failErr = i, err
+					break
+				}
+			}
+		} else {
+			how = "Change.Apply of the identical change on a read-only world"
+			_, failErr = ch.ref(dir).Apply(ro)
+		}
+	}); cls != "" {
+		r.Violate("reference-on-read-only-world:"+cls, "%s\n%s", desc, msg)
+		return r
+	}
+	fails := failErr != nil
+	res := "error-reported"
+	if got.err == nil {
+		res = "no-error-reported"
+	}
+	r.Outcome = fmt.Sprintf("%s:%s:read-only-world:%s", evaluator, ch.kind, res)
+	r.Count(fmt.Sprintf("read-only-world:mutating-calls-on-the-world:%d", observed.ncalls()), 1)
+	if cd.change%7 == 0 && cd.root == 0 {
+		r.Sample = map[string]interface{}{"evaluator": evaluator, "expression": shown, "world": "read-only", "reference_error": fmt.Sprint(failErr), "response_error": fmt.Sprint(got.err)}
+	}
+	if fails && got.err == nil {
+		what := "feature-documents"
+		if modelled {
+			what = ops[failAt].kind
+		}
+		r.Violate(fmt.Sprintf("%s:no-error-reported-though-entry-fails:read-only-world:%s:%s", evaluator, ch.kind, what),
+			"%s\n%s fails: %v\nthe response reports no error (result %s, ids %s)", desc, how, failErr, got.typ, idSet(got.ids))
+	}
+	if f := observed.firstFailure(); f != nil && got.err == nil {
+		r.Violate(fmt.Sprintf("%s:no-error-reported-though-a-mutation-of-the-world-failed:read-only-world:%s:%s", evaluator, ch.kind, f.kind),
+			"%s\nwhile the change was applied, %s %s on the world returned: %v\nthe response reports no error (result %s, ids %s)", desc, f.kind, f.id, f.err, got.typ, idSet(got.ids))
+	}
+	return r
+}
+
+type caseDef struct {
+	change, pre, root, eval int
+	readOnly                bool // the evaluators run over ingest.ReadOnlyWorlds (pre-state fresh)
+}
 
 func main() {
 	kit.Main(&kit.Check{
@@ -1103,13 +1360,16 @@ func main() {
 		Rule: "every change of the menu: (a) single changes: 15 tag edits on present/absent IDs; 14 feature additions via add-point/add-relation/add-collection/import-geojson/connect incl. failing ones; 12 change files incl. path over a missing point, area over an open path, area over a missing path, malformed file, and 5 files of tag-edit documents (add/remove lists) on a present ID, an absent ID, absent then present, present then absent; " +
 			"(b) multi-entry collections: every add-tags and every remove-tags change whose collection is a sequence (repetition allowed, every order) of 2..3 entries over a 5-entry menu {2 entries on base features (plain and searchable key), 1 entry on a point that only one pre-state contains, 2 entries on absent IDs}, and every import-geojson feature collection that is a sequence of 2..3 features over {point, line string, line string of one point (invalid), polygon} - so every pattern valid/failing x valid/failing (x valid/failing), failure first / middle / last / several; " +
 			"(c) every merge-changes sequence of <= M parts over a 20-part menu of succeeding and failing parts (11 single-entry parts incl. 2 change files; 9 multi-entry parts: add-tags [valid valid], [failing valid], [valid failing], [valid failing valid], [valid-once-the-point-exists valid], remove-tags [failing valid], [valid failing], import-geojson [invalid valid], [valid invalid]), and the nested form merge[merge[a], b] of every 2-part sequence; " +
-			"each x 3 pre-states x 2 world roots x {gRPC Evaluate, api.Evaluator.EvaluateExpression}; ordered single changes, 2-entry collections, 3-entry collections, merges by length. Expressions are shell text parsed with api.ParseExpression. Every case is non-trivial; distinct by (evaluator, change, pre-state, root). " +
-			"Oracle: 'applying the change failed' is decided without Change.Apply: the identical change built with ingest constructors is taken apart into its entries (merged changes flattened in order) and these are applied one by one with MutableWorld.AddTag/RemoveTag/AddFeature to an identical fresh MutableOverlayWorld in the identical pre-state; it failed iff an operation returns an error (for (b) this must also agree with the declared validity of each entry: ID present in the pre-state / line string has 2 points). The response must report an error iff applying failed (the entries of a file of tag-edit documents are written out by hand; files with feature documents have no readable entries: for them Change.Apply on an identical fresh world decides, as it does for the remaining demands). " +
+			"each x 2 world roots x {gRPC Evaluate, api.Evaluator.EvaluateExpression} x {writable server in each of 3 pre-states; read-only server (ingest.ReadOnlyWorlds)}; and inside every writable case, fault injection: the same request on an identical world where the k-th mutating call (AddFeature/AddTag/RemoveTag) made on the world fails, for every k = 1..N, N = number of mutating calls the fault-free evaluation made on the world (both evaluators get the world through a delegating ingest.Worlds/MutableWorld wrapper); ordered single changes, 2-entry collections, 3-entry collections, merges by length. Expressions are shell text parsed with api.ParseExpression. Every case is non-trivial; distinct by (evaluator, change, pre-state or read-only, root) and, for fault-injected runs, k. " +
+			"Oracle: 'applying the change failed' is decided without Change.Apply: the identical change built with ingest constructors is taken apart into its entries (merged changes flattened in order) and these are applied one by one with MutableWorld.AddTag/RemoveTag/AddFeature to an identical fresh MutableOverlayWorld in the identical pre-state; it failed iff an operation returns an error (for (b) this must also agree with the declared validity of each entry: ID present in the pre-state / line string has 2 points). The response must report an error iff applying failed (the entries of a file of tag-edit documents are written out by hand; the entries of any other change file are its documents, each ingested on its own as a one-document file). " +
+			"Read-only server: the entries applied one by one to ingest.ReadOnlyWorld fail, so an error must be reported. All world kinds: if any mutating call the evaluation made on the world returned an error (observed by the wrapper: injected fault, read-only world, or a real failure), the response must report an error. " +
 			"On success returned IDs == IDs Change.Apply reports, are targets of the change, and include every target whose existence/tags/geometry changed; evaluator's world dump == dump of the identical world after Change.Apply of the identical change, and, when no error is reported and every entry succeeds, == dump of the world with the entries applied one by one.",
 		Assumptions: []string{
-			"'applying the change failed' is read as: applying the entries of the change in order with the world's elementary operations (AddTag, RemoveTag, AddFeature), one of them returns an error; for changes read from files containing feature documents (no readable entries): Change.Apply of the identical change on an identical fresh world returns an error",
+			"'applying the change failed' is read as: applying the entries of the change in order with the world's elementary operations (AddTag, RemoveTag, AddFeature), one of them returns an error; an entry of a change file with feature documents is one document, applied by ingesting it alone",
 			"a response error for a change all of whose entries succeed one by one is a violation only if Change.Apply on an identical world succeeds or the evaluator's world shows every entry applied; otherwise (Apply itself fails and the world is not the fully applied one) applying did fail and the error is due",
 			"after a failing change the evaluator's world is compared with the reference world after the same failing Apply (AddTags/AddFeatures are not atomic; atomicity is C13's subject), not with the world before",
+			"a fault is a mutating call on the world returning an error without being performed; the canary overlay a merged change validates against is not the world, so faults hit the commit pass only",
+			"on a read-only server only the fresh pre-state exists",
 			"returned IDs are compared as sets",
 			"callers of Evaluator.EvaluateExpression hold the read lock, as ui.OpenSourceUI.ServeStack does",
 		},
@@ -1138,8 +1398,13 @@ func main() {
 				for p := range prestates {
 					for rt := range roots {
 						for ev := range evaluators {
-							cases = append(cases, caseDef{c, p, rt, ev})
+							cases = append(cases, caseDef{change: c, pre: p, root: rt, eval: ev})
 						}
+					}
+				}
+				for rt := range roots {
+					for ev := range evaluators {
+						cases = append(cases, caseDef{change: c, root: rt, eval: ev, readOnly: true})
 					}
 				}
 			}
@@ -1156,8 +1421,8 @@ func main() {
 						e = &env{x: x, base: base, changes: chs, queries: wk.NamedQueries(atoms)}
 					}
 					return e.run(cases[i])
-				}}, fmt.Sprintf("%d changes (%d single; %d collections of %d..%d entries: add-tags and remove-tags over 5-entry menus, import-geojson over a 4-feature menu, every sequence; %d merges of <= %d parts over a %d-part menu incl. nested 2-part merges) x %d pre-states x %d roots x 2 evaluators, ID scheme %s",
-					len(chs), nSingle, nMulti, minEntries, maxEntries, len(chs)-nSingle-nMulti, maxMerge, len(mergeMenu), len(prestates), len(roots), sch.Name)
+				}}, fmt.Sprintf("%d changes (%d single; %d collections of %d..%d entries: add-tags and remove-tags over 5-entry menus, import-geojson over a 4-feature menu, every sequence; %d merges of <= %d parts over a %d-part menu incl. nested 2-part merges) x %d roots x 2 evaluators x (%d pre-states of a writable server, each with a fault injected at every mutating call 1..N the evaluation makes on the world, + a read-only server), ID scheme %s",
+					len(chs), nSingle, nMulti, minEntries, maxEntries, len(chs)-nSingle-nMulti, maxMerge, len(mergeMenu), len(roots), len(prestates), sch.Name)
 		},
 	})
 }
